@@ -30,7 +30,6 @@ def bodyTok (b : Bytes) : String := s!"{b.length}.{hex16 (fnv b)}"
 
 def srcBytes : Src → Bytes
   | .content c => pat c.cid c.len
-  | .dirfd => []
 
 /-- what the server copies out of a reader: at most `Content-Length` bytes from the range start -/
 def readerBody (r : Reader) : Bytes := ((srcBytes r.src).drop r.lo).take r.cl
@@ -43,15 +42,16 @@ inductive DStep where
   | c (j : Nat)
   | x
 
-def parseSteps : List String → Option (List DStep)
+/-- `n` = number of the step: the identity of the file object a `W` / `M` step creates (write to temp + rename) -/
+def parseSteps (n : Nat) : List String → Option (List DStep)
   | [] => some []
   | k :: a :: b :: c :: d :: rest => do
     let s ← match k with
-      | "W" => do some (DStep.w (← a.toNat?) { cid := ← b.toNat?, len := ← c.toNat? } (← d.toNat?))
+      | "W" => do some (DStep.w (← a.toNat?) { ino := n, cid := ← b.toNat?, len := ← c.toNat? } (← d.toNat?))
       | "M" => do
         let key ← a.toNat?
         if b == "-" then some (DStep.m key none)
-        else some (DStep.m key (some ({ cid := ← b.toNat?, len := ← c.toNat? }, ← d.toNat?)))
+        else some (DStep.m key (some ({ ino := n, cid := ← b.toNat?, len := ← c.toNat? }, ← d.toNat?)))
       | "D" => do some (DStep.d (← a.toNat?))
       | "G" | "H" => do
         let key ← a.toNat?
@@ -61,7 +61,7 @@ def parseSteps : List String → Option (List DStep)
       | "C" => do some (DStep.c (← a.toNat?))
       | "X" => some DStep.x
       | _ => none
-    let r ← parseSteps rest
+    let r ← parseSteps (n + 1) rest
     some (s :: r)
   | _ => none
 
@@ -100,21 +100,11 @@ def rcsOk (impl : String) : Bool :=
   impl == "-" || (impl.splitOn ",").all fun t =>
     t == "?" || (match (t.splitOn "/").head? with | some n => (match n.toInt? with | some v => v > 0 | none => false) | none => false)
 
-/-- a request that found the descriptor of a big reader reading something else than the cached file -/
-def mismatch (s : State) (rid : Nat) : Bool :=
-  match findReader s rid with
-  | none => false
-  | some r =>
-    match findObj s r.fid with
-    | none => false
-    | some o => r.src != .content o.c
-
 def branch (s : State) (key : Nat) (s1 : State) (a : Ans) : String :=
   let hit := match lookup s key with
     | some o => (if o.isBig then "hitB" else "hitS") ++ (if o.isBig then (if o.pool.isEmpty then "-reopen" else "-pool") else "")
     | none => "miss"
-  let mm := match a.rid with | some rid => if mismatch s1 rid then "!other" else "" | none => ""
-  s!"{hit}{a.status}{mm}"
+  s!"{hit}{a.status}"
 
 /-- the version the spec accepts: a content written under the key before the request -/
 structure Want where
@@ -155,7 +145,6 @@ structure Acc where
   out : List String := []
   spec : Bool := true
   note : String := ""
-  known : Bool := false
   labels : List String := []
   lastFds : String := "0"
   stopped : Bool := false
@@ -196,14 +185,13 @@ def go (accept : Bool) (acc : Acc) (s : DStep) : Acc :=
     | .error _ => { acc with out := acc.out ++ ["PANIC"], stopped := true }
     | .ok (s1, a) =>
       let label := branch acc.st key s1 a ++ (if hold then "h" else "")
-      let known := acc.known || (match a.rid with | some rid => mismatch s1 rid | none => false)
       let fdsI := (chunk.drop 4).headD ""
       let rcsI := (chunk.drop 5).headD ""
       if hold then
         let held' := match a.rid with | some rid => (no, rid) :: acc.held | none => acc.held
         { acc with st := s1, out := acc.out ++ headToks a ++ [if a.rid.isSome then "1" else "0", fdsTok s1 fdsI, rcsTok s1 held' rcsI],
                    held := held',
-                   labels := label :: acc.labels, known := known }
+                   labels := label :: acc.labels }
       else
         match a.rid with
         | none => { acc with st := s1, out := acc.out ++ headToks a ++ ["-", fdsTok s1 fdsI, rcsTok s1 acc.held rcsI], labels := label :: acc.labels }
@@ -212,7 +200,7 @@ def go (accept : Bool) (acc : Acc) (s : DStep) : Acc :=
           match closeOp rid s1 with
           | .error _ => { acc with out := acc.out ++ headToks a ++ ["PANIC"], stopped := true }
           | .ok (s2, _) =>
-            { acc with st := s2, out := acc.out ++ headToks a ++ [body, fdsTok s2 fdsI, rcsTok s2 acc.held rcsI], labels := label :: acc.labels, known := known }
+            { acc with st := s2, out := acc.out ++ headToks a ++ [body, fdsTok s2 fdsI, rcsTok s2 acc.held rcsI], labels := label :: acc.labels }
   | .c j =>
     let chunk := acc.impl.take 3
     let acc := { acc with impl := acc.impl.drop 3 }
@@ -254,7 +242,7 @@ def handle : Handler
   | "fscache" :: a :: stepToks, impl => do
     if impl == ["TIMING"] then
       return { out := impl, tag := "fscache:timing-skip" }
-    let steps ← parseSteps stepToks
+    let steps ← parseSteps 0 stepToks
     let accept := a == "1"
     let acc := steps.foldl (go accept) { impl := impl }
     let acc := fail acc (!impl.contains "PANIC") "panic"
@@ -262,7 +250,6 @@ def handle : Handler
     let allClosed := acc.heldImpl.isEmpty
     let acc := fail acc (!allClosed || acc.lastFds == "0") s!"{acc.lastFds} descriptors left when nothing is cached or in flight"
     pure { out := acc.out, spec := acc.spec, specNote := if acc.spec then "bodies are slices of what was written; no panic; no descriptor left" else acc.note,
-           cls := if acc.known then "C08-reopen-by-name" else "",
            tag := "fscache:" ++ a ++ ":" ++ ",".intercalate (sortDedup acc.labels) }
   | _, _ => none
 
